@@ -409,6 +409,12 @@ func (s *QueryVisitor) EnterOC_RegularQuery(ctx *parser.OC_RegularQueryContext) 
 }
 
 func (s *QueryVisitor) EnterOC_SingleQuery(ctx *parser.OC_SingleQueryContext) {
+	// A single query may be reached without an enclosing regular query, e.g. below a bulk import query, which is
+	// reported as unsupported but still walked
+	if s.Query == nil {
+		s.Query = cypher.NewRegularQuery()
+	}
+
 	s.Query.SingleQuery = cypher.NewSingleQuery()
 }
 
